@@ -70,6 +70,20 @@ def make_builder(cfg: Config, reaction=None):
     return b
 
 
+def reconfigure(b, cfg: Config) -> None:
+    """Set the configuration of cfg on an EXISTING builder (alignment, stable ids, scalar initial mass, couplings): the way a user changes
+    settings between two formulate() calls. Dynamics stay as assigned."""
+    from ampform.helicity.align.axisangle import AxisAngleAlignment
+    from ampform.helicity.align.dpd import DalitzPlotDecomposition
+    from ampform.helicity.align import NoAlignment
+
+    fs = sorted(b.reaction.final_state)
+    b.config.spin_alignment = AxisAngleAlignment() if cfg.alignment == "axis" else DalitzPlotDecomposition(reference_subsystem=int(cfg.alignment[3])) if cfg.alignment.startswith("dpd") else NoAlignment()
+    b.config.stable_final_state_ids = None if cfg.stable == "none" else (fs[:2] if len(fs) > 2 else fs[:1]) if cfg.stable == "some" else fs
+    b.config.scalar_initial_state_mass = cfg.scalar_initial_mass
+    b.config.use_helicity_couplings = cfg.helicity_couplings
+
+
 def build(cfg: Config):
     """Formulate the model. The form-factor builder documents that it refuses nodes without an angular momentum
     (helicity formalism, half-integer spins): that configuration is then built with the plain Breit-Wigner instead."""
